@@ -175,6 +175,7 @@ Holds(e, name) ==
          C12_Residual(g, IntFieldOf(g, cf.alpha), cf.dt, IntFieldOf(g, cf.old), MatOf(o.Aspatial),
                       IntFieldOf(g, o.gamma), FieldOf(g, o.r_solve))
     [] name = "C12_History" -> C04_Solves(g, FieldOf(g, cf.xstar2), FieldOf(g, o.r_history))
+    [] name = "C12_HistoryAlpha" -> C04_Solves(g, FieldOf(g, cf.xstar2), FieldOf(g, o.r_history_alpha))
     [] name = "C12_Retry" -> o.flags.bad_term_rejected /\ C04_Solves(g, FieldOf(g, cf.xstar), FieldOf(g, o.r_retry))
     [] name = "C12_HistoryPeriodic" -> C04_Solves(g, FieldOf(g, cf.xstar), FieldOf(g, o.r_history_per))
     [] name = "C12_Limits" ->      \* floating-point observation, generous thresholds (DESIGN 8): 1e-9 units
